@@ -6,7 +6,9 @@ use crate::{vensure, vfail};
 use anemo::types::{PeerAffinity, PeerInfo};
 use proptest::prelude::*;
 use serde::{Deserialize, Serialize};
+use crate::simnet::adversary as adv;
 use std::collections::{BTreeMap, BTreeSet};
+use std::sync::{Arc, Mutex};
 
 #[derive(Clone, Copy, Debug, Serialize, Deserialize, PartialEq, Eq, Hash)]
 pub enum Aff {
@@ -31,6 +33,10 @@ pub enum Op {
     SetAffinity(u8, Aff),
     /// High affinity with a usable address: the listener must dial it in the background
     SetHighWithAddress(u8),
+    /// a stranger (raw QUIC endpoint, valid certificate, not in the table) completes TLS with the
+    /// listener and then closes (0: at once, 1: after 30 ms) without ever completing anemo's
+    /// acknowledgement: never an established connection, so it must not use up a slot
+    BrokenArrive(u8),
 }
 
 #[derive(Clone, Debug, Serialize, Deserialize, PartialEq, Eq, Hash)]
@@ -89,6 +95,7 @@ pub fn check(case: &Case, obs: &mut Obs) -> Result<(), Fail> {
         };
         let (mut by_limit_with_outbound, mut bypass_at_limit, mut slot_reused, mut freed) = (false, false, false, false);
         let mut outbound: BTreeSet<u8> = BTreeSet::new();
+        let (mut broken, mut failed_handshake_at_limit_cfg, mut arrival_after_failed) = (0u32, false, false);
 
         for (step, op) in case.ops.iter().enumerate() {
             let disconnected: Vec<u8> = (0..nd).filter(|i| !est.contains(i)).collect();
@@ -112,6 +119,7 @@ pub fn check(case: &Case, obs: &mut Obs) -> Result<(), Fail> {
                     if want && !again {
                         est.insert(d);
                     }
+                    if a == Aff::Unknown && failed_handshake_at_limit_cfg { arrival_after_failed = true; }
                     if a == Aff::Unknown && limit.is_some() {
                         if !outbound.is_empty() && (est.len() + (!want) as usize) >= limit.unwrap() { by_limit_with_outbound = true; }
                         if want && freed { slot_reused = true; }
@@ -159,6 +167,21 @@ pub fn check(case: &Case, obs: &mut Obs) -> Result<(), Fail> {
                     aff.insert(d, (Aff::High, true));
                     set_aff(&l, &ds[d as usize], Aff::High, true);
                 }
+                Op::BrokenArrive(kind) => {
+                    broken += 1;
+                    let who = adv::Presented::honest(&key_seed(600 + broken as u64), "simnet");
+                    let ep = adv::raw_endpoint(&sim.fabric, node_addr(100 + broken as u8), None).map_err(|e| Fail::Inconclusive(e.to_string()))?;
+                    let cfg = adv::client_config(Some(&who), Arc::new(Mutex::new(Vec::new())));
+                    if let Ok(connecting) = ep.connect_with(cfg, l.addr(), "simnet") {
+                        if let Ok(Ok(conn)) = within(10_000, connecting).await {
+                            if *kind % 2 == 1 { sleep_ms(30).await; }
+                            conn.close(0u32.into(), b"");
+                            if limit.is_some() { failed_handshake_at_limit_cfg = true; }
+                        }
+                    }
+                    ep.wait_idle().await;
+                    drop(ep);
+                }
             }
             // settle: longer than one connectivity-check interval plus connect time
             sleep_ms(2 * INTERVAL_MS + 300).await;
@@ -184,7 +207,8 @@ pub fn check(case: &Case, obs: &mut Obs) -> Result<(), Fail> {
         if by_limit_with_outbound { obs.label("limit-decided-with-outbound-counted"); }
         if bypass_at_limit { obs.label("affinity-bypass-at-limit"); }
         if slot_reused { obs.label("freed-slot-reused"); }
-        if by_limit_with_outbound || bypass_at_limit || slot_reused {
+        if arrival_after_failed { obs.label("limit-decided-after-failed-handshake"); }
+        if by_limit_with_outbound || bypass_at_limit || slot_reused || arrival_after_failed {
             obs.nontrivial(&case);
         }
         Ok(())
@@ -196,7 +220,7 @@ impl Part for Histories {
     type Case = Case;
     fn name(&self) -> &'static str { "admission-history" }
     fn rule(&self) -> &'static str {
-        "a listener with limit in {None, 0..4} and an affinity table over 2-6 dialers (High/Allowed/Never/unknown, mutated at run time); histories of non-overlapping arrivals (also of already connected dialers), explicit dials by the listener (also to connected dialers), disconnects from either side, and High-with-address entries that trigger background dials; settle after every step; oracle = admission model written from the documentation (Never => reject; High/Allowed => admit; else no limit or established < limit, counting both directions): dial result Ok <=> model admits, listener's listing == model after every step, every dialer's view agrees, explicit and background dials never blocked; excluded by construction: arrivals of peers the listener is dialing in the background, explicit dials to Never peers; non-trivial = an arrival decided by the limit while an outbound connection is counted, a High/Allowed/background bypass at the limit, or a freed slot reused; distinct by case"
+        "a listener with limit in {None, 0..4} and an affinity table over 2-6 dialers (High/Allowed/Never/unknown, mutated at run time); histories of non-overlapping arrivals (also of already connected dialers), explicit dials by the listener (also to connected dialers), disconnects from either side, High-with-address entries that trigger background dials, and strangers that complete TLS and close before anemo's acknowledgement (never established: must not use up a slot); settle after every step; oracle = admission model written from the documentation (Never => reject; High/Allowed => admit; else no limit or established < limit, counting both directions): dial result Ok <=> model admits, listener's listing == model after every step, every dialer's view agrees, explicit and background dials never blocked; excluded by construction: arrivals of peers the listener is dialing in the background, explicit dials to Never peers; non-trivial = an arrival decided by the limit while an outbound connection is counted, a High/Allowed/background bypass at the limit, a freed slot reused, or a limit decision after a failed inbound handshake; distinct by case"
     }
     fn strategy(&self, _t: Tier) -> BoxedStrategy<Case> {
         let aff = || prop_oneof![3 => Just(Aff::Unknown), 1 => Just(Aff::High), 1 => Just(Aff::Allowed), 1 => Just(Aff::Never)];
@@ -209,6 +233,7 @@ impl Part for Histories {
             2 => any::<u16>().prop_map(Op::DisconnectByDialer),
             2 => (0u8..6, aff()).prop_map(|(d, a)| Op::SetAffinity(d, a)),
             1 => (0u8..6).prop_map(Op::SetHighWithAddress),
+            2 => (0u8..2).prop_map(Op::BrokenArrive),
         ];
         (prop_oneof![1 => Just(None), 4 => (0u8..5).prop_map(Some)], 2u8..7, prop::collection::vec(aff(), 6), prop::collection::vec(op, 1..16))
             .prop_map(|(limit, dialers, initial, ops)| Case { limit, dialers, initial, ops })
